@@ -15,6 +15,8 @@ def run(ctx):
             name = "convert_N%d_%s" % (n, t)
             js.append(Job(name, SRC, ["-O1", "-w", "-mbmi2", "-fsanitize=address"], ["VP_N=%d" % n, "VP_T=" + t] + ([] if thorough else ["VP_QUICK"]),
                           [B[n], 3 if thorough else 2], timeout=1500, key_prefix=name))
+    cuda_inc = ["-I" + os.path.join(VERIF, "include/cuda_shim"), "-I" + os.path.join(ctx.repo, "lib/cuda")]
+    js.append(Job("cuda_shim", os.path.join(VERIF, "harness/c05_cuda_shim.cpp"), ["-O1", "-w", "-fsanitize=address"] + cuda_inc, [], [ctx.tier], timeout=900, key_prefix="cuda_shim"))
     total = core.build_and_run(ctx, js)
     ctx.level = "model_checking"
     ctx.cov.update({
@@ -27,10 +29,10 @@ def run(ctx):
         "rule": "states = (source layout, destination layout, extent vector, M, storage type) conversion situations reached + canonical layout states of the chain search; transitions = conversions executed on the real constructors "
                 "(every one is run on the implementation, hence traces_validated == transitions); all ordered pairs over {strided, morton_bmi2 (built with -mbmi2), morton_portable, hilbert(N=2)} for every extent vector <= B_N (%s), M in {1,3}; "
                 "every conversion sequence of length <= chain_length from the row-major source compared with the directly converted field (dump bytes); whole-stack affine<I1<L1<array>>> -> affine<I2<L2<array>>> for I in {nn,linear} on extent vectors {2,3}^N + one non-square; "
-                "oracles: extents, documented storage length, value at every lattice coordinate, byte-identical round trip, source dump unchanged, copy form == move form, affine configuration memcmp-equal" % B,
+                "cuda_device_array storage under a host shim of the runtime (conversion, d2d copy/assign, move, D2H read-back equals the same layout on the host, no device leak, no wrong memcpy kind); oracles: extents, documented storage length, value at every lattice coordinate, byte-identical round trip, source dump unchanged, copy form == move form, affine configuration memcmp-equal" % B,
         "bounds": B, "chain_length": total.get("chain_length"), "groups": total.get("groups", {}),
     })
-    ctx.assumptions += ["CUDA device storage is exercised by C13's shim build only (compile-level), not here", "lookup equality of source and converted stack is demanded only when the interpolator is unchanged"]
+    ctx.assumptions += ["CUDA: host->device conversion, device copies and moves run on the host against a shim of the CUDA runtime whose device memory is ASan-poisoned for direct host access (reduced assurance: no real device)", "lookup equality of source and converted stack is demanded only when the interpolator is unchanged"]
 
 def replay(ctx, rp):
     return core.generic_replay(ctx, rp)
